@@ -3,11 +3,12 @@
 From V.lib Require Import Prelude PyFloat PyVal.
 From V.model Require Import Schema SchemaMatch Xmlchemy SimpleTypeLib XmlValid.
 From V.gen Require Import GenC03.
-(* one row per rejected complete template: id :: 7701 :: (kind elem what pos) ... *)
+(* one row per complete template rejected WITHOUT exemptions (recorded deviations included, so
+   that the check can show them as known findings): id :: 7701 :: (kind elem what pos) ... *)
 Eval vm_compute in
   map (fun t => tp_id t :: 7701%N :: flat_map (fun e => [ve_kind e; ve_elem e; ve_what e; ve_pos e])
-                                        (errs_node schema0 exempt (tp_ty t) (tp_node t)))
-      (filter (fun t => tp_complete t && negb (valid_node schema0 exempt (tp_ty t) (tp_node t))) templates).
+                                        (errs_node schema0 [] (tp_ty t) (tp_node t)))
+      (filter (fun t => tp_complete t && negb (valid_node schema0 [] (tp_ty t) (tp_node t))) templates).
 Eval vm_compute in [7702%N :: map dc_id (filter (fun r => negb (memN (dc_id r) known_decl || decl_row_ok schema0 r)) decls)].
 Eval vm_compute in [7703%N :: map at_id (filter (fun r => negb (memN (at_id r) known_attr) && N.eqb (attr_row_verdict schema0 r) 1
       && negb (existsb (fun r' => N.eqb (at_grp r') (at_grp r) && N.eqb (attr_row_verdict schema0 r') 0) adecls)) adecls)].
